@@ -26,16 +26,18 @@ Record world := mkW {
   w_inflight : list item; w_delayed : list (Z * Z * item);
   w_nframes : Z; w_trace : list (list Z);        (* newest chunk first *)
   w_reqs : list reqcfg; w_faults : list (Z * list Z); w_silence : Z; w_injs : list injcfg;
-  w_parked : list job }.                          (* answers the server applications have parked, oldest first *)
+  w_parked : list job;                            (* answers the server applications have parked, oldest first *)
+  w_chains : list (Z * Z * Z * Z) }.              (* (node, peer, invoke id, request no): the confirmation callback submits that request *)
 
-Definition set_nodes ns w := mkW ns (w_now w) (w_tctr w) (w_dseq w) (w_inflight w) (w_delayed w) (w_nframes w) (w_trace w) (w_reqs w) (w_faults w) (w_silence w) (w_injs w) (w_parked w).
-Definition set_now t w := mkW (w_nodes w) t (w_tctr w) (w_dseq w) (w_inflight w) (w_delayed w) (w_nframes w) (w_trace w) (w_reqs w) (w_faults w) (w_silence w) (w_injs w) (w_parked w).
-Definition set_tctr c w := mkW (w_nodes w) (w_now w) c (w_dseq w) (w_inflight w) (w_delayed w) (w_nframes w) (w_trace w) (w_reqs w) (w_faults w) (w_silence w) (w_injs w) (w_parked w).
-Definition set_inflight l w := mkW (w_nodes w) (w_now w) (w_tctr w) (w_dseq w) l (w_delayed w) (w_nframes w) (w_trace w) (w_reqs w) (w_faults w) (w_silence w) (w_injs w) (w_parked w).
-Definition set_delayed d l w := mkW (w_nodes w) (w_now w) (w_tctr w) d (w_inflight w) l (w_nframes w) (w_trace w) (w_reqs w) (w_faults w) (w_silence w) (w_injs w) (w_parked w).
-Definition set_nframes n w := mkW (w_nodes w) (w_now w) (w_tctr w) (w_dseq w) (w_inflight w) (w_delayed w) n (w_trace w) (w_reqs w) (w_faults w) (w_silence w) (w_injs w) (w_parked w).
-Definition set_parked p w := mkW (w_nodes w) (w_now w) (w_tctr w) (w_dseq w) (w_inflight w) (w_delayed w) (w_nframes w) (w_trace w) (w_reqs w) (w_faults w) (w_silence w) (w_injs w) p.
-Definition log (e : list Z) w := mkW (w_nodes w) (w_now w) (w_tctr w) (w_dseq w) (w_inflight w) (w_delayed w) (w_nframes w) (e :: w_trace w) (w_reqs w) (w_faults w) (w_silence w) (w_injs w) (w_parked w).
+Definition set_nodes ns w := mkW ns (w_now w) (w_tctr w) (w_dseq w) (w_inflight w) (w_delayed w) (w_nframes w) (w_trace w) (w_reqs w) (w_faults w) (w_silence w) (w_injs w) (w_parked w) (w_chains w).
+Definition set_now t w := mkW (w_nodes w) t (w_tctr w) (w_dseq w) (w_inflight w) (w_delayed w) (w_nframes w) (w_trace w) (w_reqs w) (w_faults w) (w_silence w) (w_injs w) (w_parked w) (w_chains w).
+Definition set_tctr c w := mkW (w_nodes w) (w_now w) c (w_dseq w) (w_inflight w) (w_delayed w) (w_nframes w) (w_trace w) (w_reqs w) (w_faults w) (w_silence w) (w_injs w) (w_parked w) (w_chains w).
+Definition set_inflight l w := mkW (w_nodes w) (w_now w) (w_tctr w) (w_dseq w) l (w_delayed w) (w_nframes w) (w_trace w) (w_reqs w) (w_faults w) (w_silence w) (w_injs w) (w_parked w) (w_chains w).
+Definition set_delayed d l w := mkW (w_nodes w) (w_now w) (w_tctr w) d (w_inflight w) l (w_nframes w) (w_trace w) (w_reqs w) (w_faults w) (w_silence w) (w_injs w) (w_parked w) (w_chains w).
+Definition set_nframes n w := mkW (w_nodes w) (w_now w) (w_tctr w) (w_dseq w) (w_inflight w) (w_delayed w) n (w_trace w) (w_reqs w) (w_faults w) (w_silence w) (w_injs w) (w_parked w) (w_chains w).
+Definition set_parked p w := mkW (w_nodes w) (w_now w) (w_tctr w) (w_dseq w) (w_inflight w) (w_delayed w) (w_nframes w) (w_trace w) (w_reqs w) (w_faults w) (w_silence w) (w_injs w) p (w_chains w).
+Definition set_chains c w := mkW (w_nodes w) (w_now w) (w_tctr w) (w_dseq w) (w_inflight w) (w_delayed w) (w_nframes w) (w_trace w) (w_reqs w) (w_faults w) (w_silence w) (w_injs w) (w_parked w) c.
+Definition log (e : list Z) w := mkW (w_nodes w) (w_now w) (w_tctr w) (w_dseq w) (w_inflight w) (w_delayed w) (w_nframes w) (e :: w_trace w) (w_reqs w) (w_faults w) (w_silence w) (w_injs w) (w_parked w) (w_chains w).
 
 (* payloads (harness/ssm_common.py: req_payload, resp_payload) *)
 Fixpoint zrange (from : Z) (n : nat) : list Z := match n with O => [] | S k => from :: zrange (from + 1) k end.
@@ -187,6 +189,62 @@ Fixpoint process_outs (client : bool) (node peer : Z) (outs : list out) (w : wor
       (if client then log (ev_app 13 (w_now w) node peer a) w else app_indication node peer a w)
   end.
 
+(* StateMachineAccessPoint.sap_indication (1305-1356) for a confirmed request *)
+Definition submit (no : Z) (r : reqcfg) (w : world) : world :=
+  match get_node (r_src r) (w_nodes w) with
+  | None => w
+  | Some n =>
+    if c_raw (n_cfg n) then w else     (* a raw peer's request only scripts the server application's answer *)
+    let '(idr, next') :=
+      if r_invoke r =? -1 then get_next_invoke_id (n_next n) (r_dst r) (n_ctr n)
+      else if existsb (tr_matches (r_invoke r) (r_dst r)) (n_ctr n) then (Err RuntimeErr, n_next n)
+      else (Ok (r_invoke r), n_next n) in
+    match idr with
+    | Err e =>
+      let n' := mkN (n_cfg n) next' (n_ctr n) (n_str n) in
+      log [10; w_now w; r_src r; r_dst r; no; r_invoke r; err_code e] (set_nodes (put_node n' (w_nodes w)) w)
+    | Ok id =>
+      let a := mk_creq false false false (-1) (-1) (-1) (-1) id (r_service r) (req_payload no (r_len r)) in
+      let t := new_ssm (n_cfg n) (r_dst r) true in
+      let n' := mkN (n_cfg n) next' (n_ctr n ++ [t]) (n_str n) in
+      let '(st, e) := c_indication a (mkH t [] (w_tctr w) (w_now w) true) in
+      let i := length (n_ctr n) in
+      let l' := if h_live st then replace_nth i (h_s st) (n_ctr n') else remove_nth i (n_ctr n') in
+      let n'' := mkN (n_cfg n) next' l' (n_str n) in
+      let w := set_tctr (h_ctr st) (set_nodes (put_node n'' (w_nodes w)) w) in
+      let w := log [10; w_now w; r_src r; r_dst r; no; id; match e with Some x => err_code x | None => 0 end] w in
+      process_outs true (r_src r) (r_dst r) (rev (h_outs st)) w
+    end
+  end.
+
+(* the client application's confirmation callback may submit the next request at once (request chaining): w_chains says on
+   which (node, peer, invoke id) which request; each entry is used once.  What that submission itself emits is processed
+   without further chaining. *)
+Fixpoint take_chain (node peer inv : Z) (l : list (Z * Z * Z * Z)) : option (Z * list (Z * Z * Z * Z)) :=
+  match l with
+  | [] => None
+  | (n, p, i, no) :: r =>
+    if (n =? node) && (p =? peer) && (i =? inv) then Some (no, r)
+    else match take_chain node peer inv r with Some (x, r') => Some (x, (n, p, i, no) :: r') | None => None end
+  end.
+
+Fixpoint process_outs_c (node peer : Z) (outs : list out) (w : world) : world :=
+  match outs with
+  | [] => w
+  | Tx a :: r => process_outs_c node peer r (sent node peer a w)
+  | ToApp a :: r =>
+    let w := log (ev_app 13 (w_now w) node peer a) w in
+    let w := match take_chain node peer (a_invoke a) (w_chains w) with
+             | None => w
+             | Some (no, rest) =>
+               match nth_error (w_reqs w) (Z.to_nat no) with
+               | Some rq => submit no rq (set_chains rest w)
+               | None => set_chains rest w
+               end
+             end in
+    process_outs_c node peer r w
+  end.
+
 (* run handler `m` on transaction `i` (already in the list) of `node`; `wh` labels an exception *)
 Definition run_on (client : bool) (n : node) (i : nat) (t : ssm) (m : M) (wh : Z) (w : world) : world :=
   let '(st, e) := m (mkH t [] (w_tctr w) (w_now w) true) in
@@ -194,7 +252,8 @@ Definition run_on (client : bool) (n : node) (i : nat) (t : ssm) (m : M) (wh : Z
   let l' := if h_live st then replace_nth i (h_s st) l else remove_nth i l in
   let n' := if client then mkN (n_cfg n) (n_next n) l' (n_str n) else mkN (n_cfg n) (n_next n) (n_ctr n) l' in
   let w := set_tctr (h_ctr st) (set_nodes (put_node n' (w_nodes w)) w) in
-  let w := process_outs client (c_addr (n_cfg n)) (s_peer t) (rev (h_outs st)) w in
+  let w := if client then process_outs_c (c_addr (n_cfg n)) (s_peer t) (rev (h_outs st)) w
+           else process_outs false (c_addr (n_cfg n)) (s_peer t) (rev (h_outs st)) w in
   match e with Some x => log (ev_exn (w_now w) x wh (c_addr (n_cfg n))) w | None => w end.
 
 (* StateMachineAccessPoint.confirmation (1195-1303) *)
@@ -223,34 +282,6 @@ Definition deliver (src dst : Z) (a : apdu) (w : world) : world :=
       | None => w
       end
     else w
-  end.
-
-(* StateMachineAccessPoint.sap_indication (1305-1356) for a confirmed request *)
-Definition submit (no : Z) (r : reqcfg) (w : world) : world :=
-  match get_node (r_src r) (w_nodes w) with
-  | None => w
-  | Some n =>
-    if c_raw (n_cfg n) then w else     (* a raw peer's request only scripts the server application's answer *)
-    let '(idr, next') :=
-      if r_invoke r =? -1 then get_next_invoke_id (n_next n) (r_dst r) (n_ctr n)
-      else if existsb (tr_matches (r_invoke r) (r_dst r)) (n_ctr n) then (Err RuntimeErr, n_next n)
-      else (Ok (r_invoke r), n_next n) in
-    match idr with
-    | Err e =>
-      let n' := mkN (n_cfg n) next' (n_ctr n) (n_str n) in
-      log [10; w_now w; r_src r; r_dst r; no; r_invoke r; err_code e] (set_nodes (put_node n' (w_nodes w)) w)
-    | Ok id =>
-      let a := mk_creq false false false (-1) (-1) (-1) (-1) id (r_service r) (req_payload no (r_len r)) in
-      let t := new_ssm (n_cfg n) (r_dst r) true in
-      let n' := mkN (n_cfg n) next' (n_ctr n ++ [t]) (n_str n) in
-      let '(st, e) := c_indication a (mkH t [] (w_tctr w) (w_now w) true) in
-      let i := length (n_ctr n) in
-      let l' := if h_live st then replace_nth i (h_s st) (n_ctr n') else remove_nth i (n_ctr n') in
-      let n'' := mkN (n_cfg n) next' l' (n_str n) in
-      let w := set_tctr (h_ctr st) (set_nodes (put_node n'' (w_nodes w)) w) in
-      let w := log [10; w_now w; r_src r; r_dst r; no; id; match e with Some x => err_code x | None => 0 end] w in
-      process_outs true (r_src r) (r_dst r) (rev (h_outs st)) w
-    end
   end.
 
 (* ---------- timers: the TaskManager heap orders by (time, counter) ---------- *)
@@ -345,14 +376,18 @@ Definition snapshot_of (w : world) : list (list Z) :=
     (w_nodes w).
 
 Fixpoint init_submits (no : Z) (rs : list reqcfg) (w : world) : world :=
-  match rs with [] => w | r :: rest => init_submits (no + 1) rest (delay_item (r_t r) (ISubmit no r) w) end.
+  match rs with
+  | [] => w
+  | r :: rest => init_submits (no + 1) rest (if r_t r =? -1 then w else delay_item (r_t r) (ISubmit no r) w)   (* t = -1: chained only *)
+  end.
 Definition init_injects (w : world) : world :=
   fold_left (fun w i => if i_after i =? -1 then delay_item (i_t i) (IFrame (i_src i) (i_dst i) (i_frame i)) w else w) (w_injs w) w.
 
 Definition init_world (nodes : list nodecfg) (reqs : list reqcfg) (faults : list (Z * list Z)) (silence : Z) (injs : list injcfg) : world :=
   init_injects (init_submits 0 reqs
-    (mkW (map (fun c => mkN c 1 [] []) nodes) 0 0 0 [] [] 0 [] reqs faults silence injs [])).
+    (mkW (map (fun c => mkN c 1 [] []) nodes) 0 0 0 [] [] 0 [] reqs faults silence injs [] [])).
 
+Definition init_chains (cs : list (Z * Z * Z * Z)) (w : world) : world := set_chains cs w.
 Record iamcfg := mkIam { ia_t : Z; ia_node : Z; ia_peer : Z; ia_maxapdu : Z; ia_seg : Z }.
 Definition init_iams (iams : list iamcfg) (w : world) : world :=
   fold_left (fun w i => delay_item (ia_t i) (IIam (ia_node i) (ia_peer i) (ia_maxapdu i) (ia_seg i)) w) iams w.
@@ -372,5 +407,12 @@ Definition run_spec (nodes : list nodecfg) (reqs : list reqcfg) (faults : list (
 Definition run_spec_x (nodes : list nodecfg) (reqs : list reqcfg) (faults : list (Z * list Z)) (silence : Z) (injs : list injcfg)
                       (iams : list iamcfg) : list Z :=
   let '(w, live) := run MAX_STEPS (init_iams iams (init_world nodes reqs faults silence injs)) in
+  let snap := snapshot_of w in
+  concat (rev (w_trace w)) ++ [16; w_now w; (if live then 1 else 0); zlen snap] ++ concat snap.
+
+(* the same with request chaining from the confirmation callbacks *)
+Definition run_spec_c (nodes : list nodecfg) (reqs : list reqcfg) (faults : list (Z * list Z)) (silence : Z) (injs : list injcfg)
+                      (iams : list iamcfg) (chains : list (Z * Z * Z * Z)) : list Z :=
+  let '(w, live) := run MAX_STEPS (init_chains chains (init_iams iams (init_world nodes reqs faults silence injs))) in
   let snap := snapshot_of w in
   concat (rev (w_trace w)) ++ [16; w_now w; (if live then 1 else 0); zlen snap] ++ concat snap.
